@@ -704,3 +704,35 @@ for _pid, (_src, _defs, _q, _t, _ml) in GFUZZ.items():
     _s["engine"] += " + libFuzzer (coverage-guided, same case decoder and oracle)"
     _s["technique"] += "; plus coverage-guided fuzzing (libFuzzer) of the same case decoder with the same oracle inside the target"
     _s["rule"] += ("; the coverage-guided runs decode libFuzzer's bytes with the same decoder (selector byte(s), then entropy) and count by the same rule")
+
+
+# ---------------------------------------------------------------------------------------------- later additions to the case rules
+RULE_ADDENDA = {
+    "C01": "; two cases in three build the value with aimed extras (a member holding the template's own tail plus one unit, a storage-less string, a short string "
+           "next to one that continues with NULs) and one template in twelve of those is an 'aimed comparison'; boundary classes: 250-261 <if> levels around "
+           "loops with sort / group, attributes quoted by operator characters",
+    "C02": "; one case in three writes phrases and text runs with look-alike units (bytes above 0x7F = U+0100|c in the 2- and 4-byte builds: '{', '}', '<', ':', "
+           "digits as low bytes); one deep case in seven nests beyond 255 open tags; one build runs with QENTEM_AUTO_ESCAPE_HTML=0",
+    "C03": "; the parsed form reaches the renderer directly, through a caller-owned tag cache, through a copy-constructed cache or through a cache copy-assigned over "
+           "another template's tags (chosen by the template text)",
+    "C04": "; one case in forty nests parentheses 254..1000 deep (left-nested, right-nested, redundant pairs, alternating)",
+    "C06": "; one case in three draws strings with look-alike code points (U+0100|c: one UTF-16/32 unit whose low byte is a quote, backslash, bracket, control ...) and "
+           "numerals thousands of characters long whose exponent compensates their own zeros, or 17-digit spellings of doubles from the least-slack binades",
+    "C07": "; one case in three draws look-alike code points and unpaired low-surrogate escapes (legal by the grammar) into the strings",
+    "C09": "; near-tie class (midpoints between adjacent doubles cut to 17-21 digits, just below and just above), numerals whose exponent compensates their length "
+           "(up to 100,000 zeros), terminators that are non-ASCII units with an ASCII low byte in the 2- and 4-byte runs",
+    "C12": "; two cases in three also merge sized-but-empty temporaries (+= / Merge, copy / move) and assign a container from one of its own descendants (copy / move)",
+    "C13": "; two cases in three let Insert(key, const Value &) take its value from an entry of the same table",
+    "C14": "; two cases in three append copies of own elements (a += a[i], Insert(a[i])) and compare long near-equal operands (16-75 units, one differing unit anywhere) "
+           "and views sharing their start, with the ordering operators against a lexicographic model",
+    "C15": "; every string pair is also compared widened to 2- and 4-byte units, stretched to 16-80 units by a common prefix / suffix, and (when one is a prefix of the "
+           "other) as views of one buffer",
+    "C16": "; two cases in three may start with a nest of 9-13 loops over a two-element array",
+    "C17": "; one case in three holds containers behind pointer values, one in three gives the root object 24 more members (tables above 16 items); for those only purity "
+           "is decided, not the expansion; the value text is taken before the first render",
+    "C18": "; one case in three takes numeric group values from the table of numbers that share a 64-bit pattern across kinds; the destination of GroupBy is pre-filled in "
+           "seven ways (fresh, earlier groupings, array, string, number, object)",
+    "C20": "; one generated case in eighty and a thin slice of the enumeration put 4,000-66,000 units in front of the escape",
+}
+for _pid, _t in RULE_ADDENDA.items():
+    SPECS[_pid]["rule"] += _t
